@@ -84,7 +84,15 @@ func checkC02(e *Env) {
 							ent[i] = 0
 						}
 					}
-					emit(&Item{Op: plan.Op{Fn: "newchk", L: int64(lang), N: int64(n), Src: &plan.Src{Data: hx(ent)}},
+					src := &plan.Src{Data: hx(ent)}
+					if k%3 == 1 {
+						// the source delivers in short reads
+						chunk := []int{1, 3, 8, 12, 16, 20, 31}[(k/3)%7]
+						for d := 0; d < len(ent); d += chunk {
+							src.Steps = append(src.Steps, plan.Step{N: chunk})
+						}
+					}
+					emit(&Item{Op: plan.Op{Fn: "newchk", L: int64(lang), N: int64(n), Src: src},
 						Exp: c02exp{kind: "new-scripted", n: n, c: EntCase{Ent: ent, Lang: lang, Class: "scripted"}}})
 				}
 			}
